@@ -542,11 +542,22 @@ package xpath
 //@   loop * invariant[cursor@C13] cur(t) == old(cur(t)) && pos(cur(t)) == old(pos(cur(t)))
 //@   ensures[lower-case@C09] exists(x, string, result == box(str_tolower(x)))
 
+// position() and last(): the proximity position of the context node among its siblings that pass
+// the node test of the step, and the number of such siblings (C03).
+//@ instance cntZero(f, p) = cnt(f, p, 0) == 0
+//@ instance cntStep(f, p, i) = i >= 1 ==> cnt(f, p, i) == cnt(f, p, i - 1) + ite(testv(f, child(p, i)), 1, 0)
 //@ func positionFunc$1
-//@   props C15 C13
+//@   props C15 C13 C03
+//@   mode int
 //@   conforms functionQuery.Func
-//@   theory stream for C13
-//@   uses one-document
+//@   theory stream for C13 C03
+//@   uses one-document tree-child tree-parent tree-kinds tree-depth
+//@   let C0 = pos(cur(t))
+//@   let S0 = kind(pos(cur(t))) != 2 && !isroot(pos(cur(t)))
+//@   ensures[position@C03] result == box(float(1 + ite(S0, cnt(ref(test), parent(C0), idx(C0) - 1), 0)))
+//@   loop 0 apply cntZero(ref(test), parent(C0))
+//@   loop 0 apply cntStep(ref(test), parent(C0), idx(pos(node)))
+//@   loop 0 invariant[counting@C03] ite(S0, kind(pos(node)) != 2 && !isroot(pos(node)) && parent(pos(node)) == parent(C0) && 1 <= idx(pos(node)) && idx(pos(node)) <= idx(C0) && count == 1 + cnt(ref(test), parent(C0), idx(C0) - 1) - cnt(ref(test), parent(C0), idx(pos(node)) - 1), pos(node) == C0 && count == 1)
 //@   loop * invariant[cursor@C13] cur(t) == old(cur(t)) && pos(cur(t)) == old(pos(cur(t)))
 //@ func lastFunc$1
 //@   props C15 C13
@@ -1096,6 +1107,7 @@ package xpath
 //@ field result predicate(n) result
 //@   requires n != nil
 //@   modifies nothing
+//@   ensures-assumed[deterministic] result == testv(ref(self), pos(n))     // the node test of a step is a function of the position
 //@ func (*ancestorQuery).Test
 //@   props C15
 //@   requires[@C15] n != nil
